@@ -3,10 +3,12 @@ package spec
 import (
 	"fmt"
 	"io"
+	"strings"
 
 	"github.com/moorara/algo/errors"
 	"github.com/moorara/algo/grammar"
 	"github.com/moorara/algo/parser/lr"
+	"github.com/moorara/algo/sort"
 
 	"github.com/gardenbed/emerge/internal/ebnf/parser"
 )
@@ -363,6 +365,7 @@ func Parse(filename string, src io.Reader) (*Spec, error) {
 
 			grammar := grammar.NewCFG(table.Terminals(), table.NonTerminals(), table.Productions(), "start")
 			if err := grammar.Verify(); err != nil {
+				sortErrors(err)
 				errs = errors.Append(errs, err)
 			}
 
@@ -391,4 +394,16 @@ func Parse(filename string, src io.Reader) (*Spec, error) {
 	}
 
 	return res.Val.(*Spec), nil
+}
+
+// sortErrors puts the problems aggregated in err into alphabetical order.
+// The grammar finds them while walking its symbol sets, which iterate in a deliberately shuffled order,
+// so with two or more problems their order would change from run to run.
+func sortErrors(err error) {
+	if me, ok := err.(interface{ Unwrap() []error }); ok {
+		errs := me.Unwrap()
+		sort.Quick(errs, func(lhs, rhs error) int {
+			return strings.Compare(lhs.Error(), rhs.Error())
+		})
+	}
 }
